@@ -42,10 +42,30 @@ func c08Spec(r *gen.Rand, prev *gen.MsgSpec) gen.MsgSpec {
 	return r.Spec(8, r.PickInt([]int{8, 40, 300, 1500}))
 }
 
-func c08MakeUse(r *gen.Rand, spec gen.MsgSpec) c08Use {
+// c08Rest is the tail of the datagram the last "cut short" use dropped (nil otherwise).
+func c08MakeUse(r *gen.Rand, spec gen.MsgSpec, rest *[]byte) c08Use {
 	wire := r.WireDirty(spec)
-	if r.Chance(1, 8) {
+	if *rest != nil && r.Bool() {
+		// the bytes that were missing from the previous, cut datagram arrive on their own: they are not a message, for a
+		// fresh Message as little as for the one that saw the first part
+		data := append([]byte(nil), *rest...)
+		*rest = nil
+
+		return c08Use{"Write(rest of the cut datagram)", func(m *stun.Message) error { _, err := m.Write(data); return err }, func() {}}
+	}
+	*rest = nil
+	switch r.Intn(16) {
+	case 0, 1:
 		wire = r.Mutate(wire) // a decode that may fail: "previous use" can be a failed one
+	case 2:
+		if len(wire) > 24 {
+			cut := 20 + r.Intn(len(wire)-20)
+			*rest = append([]byte(nil), wire[cut:]...)
+			wire = wire[:cut] // a datagram cut short inside its declared body
+		}
+	case 3:
+		wire = r.Bytes(1 + r.Intn(40)) // a chunk that is not a message at all (what the rest of a cut datagram looks like)
+		wire[0] |= 0x04
 	}
 	data := append([]byte(nil), wire...)
 	scribbleData := func() {
@@ -303,13 +323,14 @@ func c08(c *core.Ctx) {
 			m = &stun.Message{Raw: make([]byte, r.Intn(64), 64+r.Intn(2048))}
 		}
 		var prev *gen.MsgSpec
+		var rest []byte
 		var history []string
 		lastOK := false
 		n := 2 + r.Intn(chainMax-1)
 		for k := 0; k < n; k++ {
 			spec := c08Spec(r, prev)
 			prev = &spec
-			use := c08MakeUse(r, spec)
+			use := c08MakeUse(r, spec, &rest)
 			var absCheck func(m *stun.Message) string
 			if k > 0 && lastOK && r.Chance(1, 5) {
 				use, absCheck = c08FollowUp(r, m)
